@@ -130,7 +130,7 @@ CHECKS = {
             {"pkg": "Havoc/cmd/server", "with": SRV_WITH, "entries": ["H_c09_died", "H_c09_markdead"]},
             {"pkg": "Havoc/cmd/server", "with": SRV_WITH, "entries": ["H_c09_event"], "shards": 4},
         ],
-        "bounds": "all forests over 3 registered agents (parent vector), victim any of them; Died/UnlinkFromAll/LinkRemove and the operator mark-dead/alive event.",
+        "bounds": "death: all forests over 3 agents plus stars/chains over 4 and 5 agents (an agent with up to 4 links), victim any of them; mark dead/alive events and pivot events (connect naming any 32-bit id with a truncated registration, disconnect, exit, kill date, arbitrary short pivot callback) from every forest over 3 agents.",
         "outside": "SQLite itself (TS_Links is a set-of-pairs model of the statements in pkg/db/links.go); more than 3 agents",
         "min_completed": 3,
     },
